@@ -1145,6 +1145,10 @@ class _Run(object):
         if is_logging_call(e):
             self.an.op(self.fi, node, "logging call")
             return NONE
+        if isinstance(f, ast.Attribute) and f.attr in ("isEnabledFor", "getEffectiveLevel", "getChild", "setLevel") and \
+                ("logger" in dump(f.value).lower() or dump(f.value).lower().startswith("logging")):
+            self.an.op(self.fi, node, "logger query")
+            return BOOL if f.attr == "isEnabledFor" else ANY      # same assumption as for the logging calls: they do not raise
         # package functions / classes
         r = self.prog.resolve_call(self.fi, e)
         if isinstance(r, FuncInfo):
@@ -1312,6 +1316,8 @@ class _Run(object):
                 if argv and not argv[0].types <= CONTAINERS | frozenset(["obj"]):
                     self.raise_("TypeError", node, "join of %r" % argv[0])
                 return good and AV(good)
+            if attr == "format":
+                self._format_fields(e, argv, node)
             return STR if attr not in ("find", "count") else T("int")
         if good <= frozenset(["list"]) and good:
             if attr in ("pop",):
@@ -1325,6 +1331,54 @@ class _Run(object):
                 self.raise_("TypeError", node, "unhashable member")
             return NONE if attr in ("add", "discard", "update", "difference_update") else ANY
         return ANY
+
+    def _format_fields(self, e, argv, node):
+        """str.format on a literal: a replacement field with a presentation type calls __format__ with that type - `{:d}` on a
+        float or a str raises ValueError, any format spec on None / a container raises TypeError; plain `{}` / `{!r}` fields
+        only need str() / repr() (assumed total).  Starred arguments of unknown length can leave a field without a value."""
+        import string
+        lit = e.func.value
+        if any(isinstance(a, ast.Starred) for a in e.args):
+            self.raise_("IndexError", node, "format(*args): a field may have no argument")
+        if not (isinstance(lit, ast.Constant) and isinstance(lit.value, str)):
+            return
+        try:
+            fields = list(string.Formatter().parse(lit.value))
+        except ValueError:
+            self.raise_("ValueError", node, "malformed format string")
+            return
+        auto = 0
+        for (_text, name, spec, conv) in fields:
+            if name is None:
+                continue
+            idx = None
+            head = name.split(".")[0].split("[")[0]
+            if head == "":
+                idx, auto = auto, auto + 1
+            elif head.isdigit():
+                idx = int(head)
+            if not spec or conv is not None or idx is None or "{" in spec:
+                continue
+            if any(isinstance(a, ast.Starred) for a in e.args):
+                continue
+            if idx >= len(argv):
+                self.raise_("IndexError", node, "format field {%s} has no argument" % name)
+                continue
+            v = argv[idx]
+            kind = spec[-1]
+            if kind in "dxXobcn":
+                if not v.types <= frozenset(["int", "bool"]):
+                    self.raise_("ValueError", node, "format spec %r applied to %r (needs an integer)" % (spec, v))
+                    if not v.types <= NUM | frozenset(["str"]):
+                        self.raise_("TypeError", node, "format spec %r applied to %r" % (spec, v))
+            elif kind in "eEfFgG%":
+                if not v.types <= NUM:
+                    self.raise_("ValueError", node, "format spec %r applied to %r (needs a number)" % (spec, v))
+                    if not v.types <= NUM | frozenset(["str"]):
+                        self.raise_("TypeError", node, "format spec %r applied to %r" % (spec, v))
+            else:
+                if not v.types <= NUM | frozenset(["str"]):
+                    self.raise_("TypeError", node, "format spec %r applied to %r" % (spec, v))
 
     def call_package(self, callee, e, argv, kwv, st, node, bound=False, selfv=None):
         params = list(callee.params)
